@@ -4,11 +4,16 @@
 // elems_test.go (the element types, preloaded stacks), phases_test.go (long phase histories: C16.phases.queue,
 // C16.phases.stack, C16.grid, C16.pair), big_test.go (C16.big: sizes 2^11..2^20 under different GOMAXPROCS; C16.pre:
 // stacks converted from slices with values and spare capacity; C16.huge: zero-size elements, lengths up to MaxInt),
-// wrap_test.go (C16.wrap16, C16.wrap32: 2^16..2^32 values through one container).
+// wrap_test.go (C16.wrap16, C16.wrap32: 2^16..2^32 values through one container), clock_test.go (C16.clock: histories
+// that really sleep), names_test.go (C16.names: distinct element types with one printed name; the packages na/twin and
+// nb/twin), apart_test.go (C16.apart: 2^16+-d calls on other containers between two calls), mega_test.go (C16.mega:
+// 2^22..2^24 values inside), tiles_test.go (C16.tiles: stacks that are windows of one buffer), guard_test.go (C16.guard:
+// stacks that end at a PROT_NONE page), local_test.go (C16.local: a stack over a function-local array).
 package c16
 
 import (
 	"fmt"
+	"runtime/debug"
 	"strings"
 	"testing"
 
@@ -105,6 +110,7 @@ type engine interface {
 	check(i int, what string, withArg bool) string
 	size() int
 	st() *stats
+	release() // gives back memory obtained outside the Go heap (guard containers); the engine is dead afterwards
 }
 
 type eng[E any] struct {
@@ -117,7 +123,16 @@ type eng[E any] struct {
 	eq            func(a, b E) bool
 	model         []E
 	lastWasInsert bool
+	free          func() // nil or the release of the container's non-heap memory
 	stats
+}
+
+func (e *eng[E]) release() {
+	if e.free != nil {
+		e.b = box[E]{} // nothing may touch the memory any more
+		e.free()
+		e.free = nil
+	}
 }
 
 func (e *eng[E]) st() *stats { return &e.stats }
@@ -340,6 +355,9 @@ func kindLabel(kind string) string {
 	if ok && strings.HasPrefix(container, "stack-pre") {
 		return "stack-pre*/" + elem
 	}
+	if ok && strings.HasPrefix(container, "stack-guard") {
+		return "stack-guard*/" + elem
+	}
 	return kind
 }
 
@@ -349,6 +367,10 @@ func Run(c Case) pbt.Outcome {
 	e := newEngine(c.Kind, c.Kind, c.Quiet)
 	if e == nil {
 		return pbt.Fail("malformed case: unknown kind %q", c.Kind)
+	}
+	defer e.release()
+	if isGuard(c.Kind) {
+		defer debug.SetPanicOnFault(debug.SetPanicOnFault(true))
 	}
 	if m := e.check(-1, "fresh container", false); m != "" {
 		return pbt.Fail("%s", m)
